@@ -9,11 +9,15 @@
   * `C13_default_partial`: the default of the built type is that of the nearest level that gives one.
   * `C13_kinds`, `C13_bounds`: which restriction applies to which base, and the initial bounds of every width
     / fraction-digits, are those of the source (regenerated), and the bound tables are exactly the 2^n formulas.
-  Not proved: completeness (every valid restriction is accepted) — held by stream ytypes against the
-  set-denotation spec (Spec.YTypesS); decimal64 is modelled with binary64 bounds as the code has them
-  (known finding C13-decimal64-float-bounds).
+  * `C13_complete`, `C13_chain_is_spec`: completeness — for integer types and lengths the compiler accepts a
+    restriction exactly when the specification does (every part non-empty, ascending, each inside one block of
+    the base after adjacent base ranges are merged) and with the same result, at every level of any chain of
+    derivations starting from a built-in range (the bases that arise are sorted: `restrict_keeps_sorted`).
+  Not proved: completeness for decimal64 (no merging there; modelled with binary64 bounds as the code has them,
+  known finding C13-decimal64-float-bounds) — held by stream ytypes against the spec.
 -/
 import YV.Proofs.YTypes
+import YV.Proofs.YRange
 import YV.Spec.YTypesS
 import YV.Gen.Types
 import YV.Gen.Status
@@ -47,6 +51,33 @@ theorem C13_chain (base : List (Int × Int)) (hne : base ≠ []) (chain : List (
         | none => simp [hm] at hr
         | some x => simp only [hm] at hr; split at hr <;> simp_all
       exact hsound.1 v (ih rs hrs final h v hv)
+
+/-- **completeness**: on a sorted base the compiler's construction *is* the specification's `validRestriction` -/
+theorem C13_complete (base : List (Int × Int)) (hne : base ≠ []) (hs : sortedBase base) (parts : List (Part Int)) :
+    restrict intOps base parts = TS.validRestriction base (parts.map fun p => (p.lo, p.hi)) :=
+  restrict_eq_spec base hne hs parts
+
+theorem chain_is_spec (chain : List (List (Part Int))) : ∀ (base : List (Int × Int)), base ≠ [] → sortedBase base →
+    chain.foldlM (fun cur parts => restrict intOps cur parts) base =
+      chain.foldlM (fun cur parts => TS.validRestriction cur (parts.map fun p => (p.lo, p.hi))) base := by
+  induction chain with
+  | nil => intro base _ _; rfl
+  | cons parts rest ih =>
+    intro base hne hs
+    simp only [List.foldlM_cons]
+    rw [← restrict_eq_spec base hne hs parts]
+    cases hr : restrict intOps base parts with
+    | none => rfl
+    | some rs =>
+      have := restrict_keeps_sorted base parts rs hr
+      simp only [Option.bind_eq_bind, Option.bind_some]
+      exact ih rs this.1 this.2
+
+/-- … through any chain of derivations from a built-in type's range [lo, hi] -/
+theorem C13_chain_is_spec (lo hi : Int) (h : lo ≤ hi) (chain : List (List (Part Int))) :
+    chain.foldlM (fun cur parts => restrict intOps cur parts) [(lo, hi)] =
+      chain.foldlM (fun cur parts => TS.validRestriction cur (parts.map fun p => (p.lo, p.hi))) [(lo, hi)] :=
+  chain_is_spec chain [(lo, hi)] (by simp) h
 
 /-- the default in force after a chain: the nearest definition that gives one -/
 def nearestDefault (levels : List Level) : Option Bytes :=
